@@ -111,6 +111,7 @@ pub fn prevote_scenario(sim: &mut Sim, steps: usize) {
                     sim.nodes[i].driver = None;
                     sim.nodes[i].async_pending.clear();
                     sim.nodes[i].to_apply.clear();
+                    sim.lose_unsynced(i);
                     let id = sim.nodes[i].id;
                     sim.note(|| format!("{} crash", id));
                     sim.pt.crash(id);
